@@ -640,6 +640,16 @@ func gen(g *hx.Gen) {
 			var sb strings.Builder
 			type hp struct{ h, p string }
 			var used []hp
+			// OpenSSH matches a pattern against the STRING "[host]:port", so a bare wildcard pattern also
+			// covers non-default ports there, while the Go code reads a bare pattern as port 22 only
+			// (observation O10c); wildcards are therefore only generated in files that stay on port 22.
+			wild := r.Bool()
+			pickPort := func() string {
+				if wild {
+					return "22"
+				}
+				return r.PickStr("22", "22", "2222")
+			}
 			for n := r.Range(1, 12); n > 0; n-- {
 				if r.Chance(1, 8) {
 					sb.WriteString("# comment\n")
@@ -648,17 +658,17 @@ func gen(g *hx.Gen) {
 				ty, b := keyFields(hx.Pick(r, w.keys).pub)
 				var field string
 				if r.Chance(1, 3) {
-					h, p := hx.Pick(r, lower), r.PickStr("22", "22", "2222")
+					h, p := hx.Pick(r, lower), pickPort()
 					used = append(used, hp{h, p})
 					salt := r.Bytes(20)
 					field = "|1|" + base64.StdEncoding.EncodeToString(salt) + "|" + base64.StdEncoding.EncodeToString(hmacSha1(salt, []byte(normHP(h, p))))
 				} else {
 					var el []string
 					for m := r.PickInt(1, 1, 2, 3); m > 0; m-- {
-						h, p := hx.Pick(r, lower), r.PickStr("22", "22", "22", "2222")
+						h, p := hx.Pick(r, lower), pickPort()
 						used = append(used, hp{h, p})
 						pat := h
-						if !strings.Contains(h, ":") {
+						if wild && !strings.Contains(h, ":") {
 							pat = mutPattern(r, h)
 						}
 						if pat == "" {
@@ -676,7 +686,7 @@ func gen(g *hx.Gen) {
 				}
 				sb.WriteString(field + " " + ty + " " + b + "\n")
 			}
-			q := hp{hx.Pick(r, lower), r.PickStr("22", "2222")}
+			q := hp{hx.Pick(r, lower), pickPort()}
 			if len(used) > 0 && r.Chance(4, 5) {
 				q = hx.Pick(r, used)
 			}
